@@ -35,14 +35,14 @@ Definition orbG (s : stmt) (r : gres) : gres :=
   if is_brk_or_cont s then (mark_as_end (pos s) EBreak y, mark_val (s_end (sc y)) EBreak, lg) else r.
 
 Definition with_childG (k : kind) (start : N) (op : st -> gres) (x : st) : gres :=
-  let '(c, r, lg) := op (child_enter fx k x) in (child_exit fx k start x c, r, lg).
+  let '(c, r, lg) := op (child_enter k x) in (child_exit fx k start x c, r, lg).
 
 Definition block_endG (p : N) (r : gres_l) : gres :=
   let '(y, lg) := r in
   (block_end p y, mark_val (s_end (sc y)) (match s_end (sc y) with Some e => e | None => EContinue end), lg).
 
 Definition fn_likeG (p pb : N) (body : st -> gres_l) (x : st) : gres :=
-  let '(c, _, lg) := block_endG pb (body (child_enter fx KFunction x)) in
+  let '(c, _, lg) := block_endG pb (body (child_enter KFunction x)) in
   (child_exit fx KFunction p x c,
    match s_end (sc c) with
    | Some e => match e with
@@ -76,11 +76,11 @@ Definition visit_if_elseG (p : N) (c : cond) (p1 : N) (op1 : st -> gres) (p2 : N
    lg1 ++ lg2).
 
 Definition visit_whileG (c : cond) (body_lo : N) (body : st -> gres) (x : st) : gres :=
-  let '(a, r, lg) := body (child_enter fx KLoop x) in
+  let '(a, r, lg) := body (child_enter KLoop x) in
   (visit_cond c (child_exit fx KLoop body_lo x (while_post_r r c body_lo a)), None, lg).
 
 Definition visit_do_whileG (p : N) (c : cond) (body_lo : N) (body : st -> gres) (x : st) : gres :=
-  let '(a, r, lg) := body (child_enter fx KLoop x) in
+  let '(a, r, lg) := body (child_enter KLoop x) in
   let a2 := dowhile_post_r fx r c body_lo a in
   let x1 := child_exit fx KLoop body_lo x a2 in
   (* info[body_lo].end as re-marked by the Loop scope exit *)
@@ -91,13 +91,13 @@ Definition visit_do_whileG (p : N) (c : cond) (body_lo : N) (body : st -> gres) 
 
 Definition visit_forG (p : N) (c : option cond) (body_lo : N) (body : st -> gres) (x : st) : gres :=
   let x := match c with Some c => visit_cond c x | None => x end in
-  let '(a, r, lg) := body (child_enter fx KLoop x) in
+  let '(a, r, lg) := body (child_enter KLoop x) in
   (child_exit fx KLoop body_lo x (for_post_r r p c body_lo a),
    if for_forced c a then mark_val (s_end (sc a)) (for_e r) else None,
    lg).
 
 Definition visit_for_inG (body_lo : N) (body : st -> gres) (x : st) : gres :=
-  let '(a, _, lg) := body (child_enter fx KLoop x) in
+  let '(a, _, lg) := body (child_enter KLoop x) in
   (child_exit fx KLoop body_lo x (forin_post body_lo a), None, lg).
 
 (* switch_forced over the ghost case ends *)
@@ -120,7 +120,7 @@ Definition visit_switchG (p : N) (cs : cases) (opc : st -> st * list (option End
 
 Definition visit_caseG (cp : N) (cons : st -> gres_l) (y : st) : gres :=
   let prev_end := s_end (sc y) in
-  let '(c, lg) := cons (child_enter fx KCase y) in
+  let '(c, lg) := cons (child_enter KCase y) in
   let y1 := child_exit fx KCase cp y c in
   let e := case_end_of (sc c) in
   (set_end (mark_as_end cp e y1) prev_end, mark_val (s_end (sc y1)) e, lg).
